@@ -5,6 +5,7 @@ pub mod c02;
 pub mod c03;
 pub mod c04;
 pub mod c05;
+pub mod c07;
 #[cfg(not(feature = "xen"))]
 pub mod c08;
 pub mod c09;
@@ -21,15 +22,16 @@ pub fn dispatch(prop: &str, tier: Tier, replay: Option<String>) -> i32 {
         "C03" => c03::run(tier, replay),
         "C04" => c04::run(tier, replay),
         "C05" => c05::run("C05", tier, replay),
-        "C16" => c05::run("C16", tier, replay),
+        "C07" => c07::run(tier, replay),
         #[cfg(not(feature = "xen"))]
         "C08" => c08::run(tier, replay),
         "C09" => c09::run(tier, replay),
-        "C19" => c19::run(tier, replay),
-        "C20" => c20::run(tier, replay),
         "C10" => c10::run(tier, replay),
         "C13" => c13::run(tier, replay),
         "C14" => c14::run(tier, replay),
+        "C16" => c05::run("C16", tier, replay),
+        "C19" => c19::run(tier, replay),
+        "C20" => c20::run(tier, replay),
         _ => {
             eprintln!("MACHINERY: unknown or unsupported property {} in this build", prop);
             2
